@@ -54,7 +54,7 @@ ISO8601_DT = re.compile(
     r"        (?:[-+])\d{2}:?(?:\d{2})?|Z"  # Offset (+HH:mm or +HHmm or +HH or Z)
     "    )?"
     ")?"
-    "$",
+    r"\Z",
     re.VERBOSE | re.ASCII,
 )
 
@@ -80,7 +80,7 @@ ISO8601_DURATION = re.compile(
     r"    (?P<minutes>\d+(?:[.,]\d+)?M)?"
     r"    (?P<seconds>\d+(?:[.,]\d+)?S)?"
     ")?"
-    "$",
+    r"\Z",
     re.VERBOSE | re.ASCII,
 )
 
